@@ -35,6 +35,7 @@ from concurrent.futures import ThreadPoolExecutor
 from vf import build, tlc, trace
 from vf import run as hrun
 from vf.core import InfraError
+from checks.deferred import Deferred
 
 LEVEL = "model_checking"
 READY = True
@@ -661,11 +662,13 @@ def run(ctx):
         allsel = sel_grid + sel_rand + sel_cls + sel_cor
         kms = [e for e in allsel if e["e"] == "Km"]
         km_crashed = any(e["e"] == "Crash" and e.get("call", "").startswith("KMeans(") for e in allsel)
+        # vacuity findings are settled AFTER the trace validation: a changed KMeans() that takes another path (no iteration, no hook) must surface as its verdict
+        deferred = Deferred(ctx)
         if (not kms or not any(e["iters"] > 0 for e in kms)) and not km_crashed:
-            raise InfraError("no k-means iteration was observed: hook H3 (getLabels_) is not firing")
+            deferred.add("no k-means iteration was observed: hook H3 (getLabels_) is not firing")
         nit = sum(1 for e in ll if e["e"] == "KmIt")
         if nit == 0 and not km_crashed:
-            raise InfraError("no Lloyd iteration was recorded: hook H6 (VERIF_STATE in KMeans) is not firing")
+            deferred.add("no Lloyd iteration was recorded: hook H6 (VERIF_STATE in KMeans) is not firing")
         # vacuity of the new classes: the generator must really have produced them
         affpts = [e for e in sel_cls if e["e"] == "Points" and _is_aff(e)]
         need = {"K3 offset 1e6": any(max(abs(v) for v in e["off"]) == 1000000 for e in affpts), "K3 offset 1e3": any(max(abs(v) for v in e["off"]) == 1000 for e in affpts),
@@ -675,14 +678,14 @@ def run(ctx):
                 "tiny set with Lloyd iterations": any(e["e"] == "Points" and e.get("tiny") for e in ll_cls),
                 "K3 x K4 far corner": any(e.get("corner") for e in affpts) and any(e["e"] == "Km" for e in sel_cor)}
         if not all(need.values()) and not any(e["e"] == "Crash" for e in allsel):
-            raise InfraError("class-directed generator no longer emits: %s" % [k for k, v in need.items() if not v])
+            deferred.add("class-directed generator no longer emits: %s" % [k for k, v in need.items() if not v])
         ctx.steps["kmeans_runs"] = len(kms)
         ctx.steps["kmeans_runs_on_translated_or_scaled_data"] = sum(1 for b in tlc.split_blocks(allsel) if len(b) > 1 and b[1]["e"] == "Points" and _is_aff(b[1]) for e in b if e["e"] == "Km")
         ctx.steps["kmeans_iteration_cap_reached"] = sum(1 for e in kms if e["conv"] != 1)
         ctx.steps["kmeans_runs_with_empty_cluster"] = sum(1 for e in kms if e["empty"])
         ctx.steps["lloyd_runs_replayed"] = sum(1 for e in ll if e["e"] == "KmStart")
         ctx.steps["lloyd_iterations_replayed"] = nit
-        ctx.steps["largest_slack_1e-6"] = max(e["slack"] for e in kms)
+        ctx.steps["largest_slack_1e-6"] = max([e["slack"] for e in kms] + [0])
         ctx.steps["child_crashes"] = sum(1 for e in allsel if e["e"] == "Crash")
         ctx.steps["point_sets"] = dict(grid=len(sets), grid_translated=sum(1 for e in sel_grid if e["e"] == "Points" and _is_aff(e)),
                                        seeded=sum(1 for e in ev_rand if e["e"] == "Points" and not e.get("shifted")),
@@ -728,8 +731,9 @@ def run(ctx):
         _validate(ctx, sel_cls, san3, "trace_cls", replay_cls, P)
         _validate(ctx, sel_cor, san4, "trace_corner", replay_cor, max(1, P // 2))
         _validate_lloyd(ctx, ll, "trace_lloyd", P)
-        if not ctx.violations:
+        if not ctx.violations and not deferred:
             _selftests(ctx, sel_rand, sel_cls, ll)
+        deferred.settle()
     finally:
         bg.shutdown(wait=True)
         shutil.rmtree(rd, ignore_errors=True)
